@@ -60,7 +60,9 @@ class Parse(ProducerContract):
 
     def requires(self, ip, a):
         st = ip.st
-        return [('is_text-flag-means-a-text-message-is-open', st.get(a.self, '_is_text') == st.ghost['text_open'])]
+        val = st.get(a.self, '_utf8_validator')
+        return [('is_text-flag-means-a-text-message-is-open', st.get(a.self, '_is_text') == st.ghost['text_open']),
+                ('validator-has-not-rejected', iv(st.get(val, '_state')) != 1)]
 
     def gen_ghost(self, ip, a):
         return dict()
@@ -110,6 +112,7 @@ class Parse(ProducerContract):
                 if cls is P._ReadUtf8:
                     out.append(('validated-read-uses-the-parsers-validator', BoolVal(st.get(aw, 'utf8_validator') == st.get(a.self, '_utf8_validator')), ('C05',)))
                     out.append(('no-validation-of-compressed-bytes', Not(comp), ('C05', 'C06')))
+                    out.append(('validator-has-not-rejected', iv(st.get(st.get(a.self, '_utf8_validator'), '_state')) != 1, ('C05',)))
                 else:
                     out.append(('unvalidated-text-read-only-under-compression', comp, ('C05', 'C06')))
             else:
@@ -278,7 +281,7 @@ class Parse(ProducerContract):
             fc = st.get(a.self, '_frame_class')
             return [('is_text-flag-means-a-text-message-is-open', st.get(a.self, '_is_text') == st.ghost['text_open'], ('C05',)),
                     ('compressed-frame-class-iff-compression', comp == BoolVal(fc is CompressedFrame), ('C06',)),
-                    ('validator-in-a-live-state', And(iv(st.get(val, '_state')) >= 0, iv(st.get(val, '_state')) <= 8))]
+                    ('validator-in-a-live-state', And(iv(st.get(val, '_state')) >= 0, iv(st.get(val, '_state')) <= 8, iv(st.get(val, '_state')) != 1))]
 
         def mods(ip):
             st = ip.st
